@@ -26,51 +26,52 @@ theorem retOf_fell {σ ρ : Type} (st : σ) : retOf (Exit.fell st : Exit σ ρ) 
 
 /-! ### `_indent_of` -/
 
-/-- the loop, from any counter: never `return`s, and leaves with the counter advanced by the model's indentation -/
-theorem indentOf_go (s : List Char) : ∀ i : Nat,
-    Gen.Layout.indentOf.go ⟨i⟩ s = .fell ⟨i + indentOf s⟩ := by
-  induction s with
-  | nil => intro i; simp [Gen.Layout.indentOf.go, indentOf]
-  | cons c rest ih =>
-    intro i
-    by_cases h1 : c = ' '
-    · subst h1; simp [Gen.Layout.indentOf.go, indentOf, ih]; omega
-    · by_cases h2 : c = '\t'
-      · subst h2; simp [Gen.Layout.indentOf.go, indentOf, ih]; omega
-      · have h0 : indentOf (c :: rest) = 0 := by
-          unfold indentOf; split <;> simp_all
-        simp [Gen.Layout.indentOf.go, h1, h2, h0]
-
+/-- the translated `_indent_of` is the model on every line.  Inside: the loop, from any counter, never `return`s and leaves with
+    the counter advanced by the model's indentation. -/
 theorem gen_indentOf (s : List Char) : Gen.Layout.indentOf s = indentOf s := by
-  simp [Gen.Layout.indentOf, indentOf_go]
+  have go : ∀ (s : List Char) (i : Nat), Gen.Layout.indentOf.go ⟨i⟩ s = .fell ⟨i + indentOf s⟩ := by
+    intro s
+    induction s with
+    | nil => intro i; simp [Gen.Layout.indentOf.go, indentOf]
+    | cons c rest ih =>
+      intro i
+      by_cases h1 : c = ' '
+      · subst h1; simp [Gen.Layout.indentOf.go, indentOf, ih]; omega
+      · by_cases h2 : c = '\t'
+        · subst h2; simp [Gen.Layout.indentOf.go, indentOf, ih]; omega
+        · have h0 : indentOf (c :: rest) = 0 := by
+            unfold indentOf; split <;> simp_all
+          simp [Gen.Layout.indentOf.go, h1, h2, h0]
+  simp [Gen.Layout.indentOf, go]
 
 /-! ### `_strip_inline_comment` -/
 
-/-- the loop, from any flags, with `acc` (reversed) already read: it `return`s exactly what the model's scan returns -/
-theorem stripInlineComment_go (text rest : List Char) : ∀ (a b e : Bool) (acc : List Char), text = acc.reverse ++ rest →
-    retOf (Gen.Layout.stripInlineComment.go text ⟨a, b, e⟩ acc.length rest) = stripGo ⟨a, b, e⟩ acc rest := by
-  induction rest with
-  | nil => intro a b e acc _; simp [Gen.Layout.stripInlineComment.go, stripGo, retOf_fell]
-  | cons c rest ih =>
-    intro a b e acc h
-    have hnext : text = (c :: acc).reverse ++ rest := by simp [h]
-    have hlen : (c :: acc).length = acc.length + 1 := rfl
-    have htake : text.take acc.length = acc.reverse := by
-      rw [h, List.take_left' (by simp)]
-    have step := fun a' b' e' => ih a' b' e' (c :: acc) hnext
-    simp only [hlen] at step
-    clear ih hnext hlen h
-    have hc : c = '\\' ∨ c = '\'' ∨ c = '"' ∨ c = '#' ∨ (c ≠ '\\' ∧ c ≠ '\'' ∧ c ≠ '"' ∧ c ≠ '#') := by
-      by_cases h1 : c = '\\' <;> by_cases h2 : c = '\'' <;> by_cases h3 : c = '"' <;> by_cases h4 : c = '#' <;> simp [*]
-    rcases hc with rfl | rfl | rfl | rfl | ⟨h1, h2, h3, h4⟩ <;> cases a <;> cases b <;> cases e <;>
-      simp [Gen.Layout.stripInlineComment.go, stripGo, retOf_ret, retOf_fell, *]
-
+/-- the translated `_strip_inline_comment` is the model on every text.  Inside: the loop, from any flags, with `acc` (reversed)
+    already read, `return`s exactly what the model's scan returns. -/
 theorem gen_stripInlineComment (s : List Char) : Gen.Layout.stripInlineComment s = stripInlineComment s := by
-  have h := stripInlineComment_go s s false false false [] (by simp)
+  have go : ∀ (text rest : List Char) (a b e : Bool) (acc : List Char), text = acc.reverse ++ rest →
+      retOf (Gen.Layout.stripInlineComment.go text ⟨a, b, e⟩ acc.length rest) = stripGo ⟨a, b, e⟩ acc rest := by
+    intro text rest
+    induction rest with
+    | nil => intro a b e acc _; simp [Gen.Layout.stripInlineComment.go, stripGo, retOf_fell]
+    | cons c rest ih =>
+      intro a b e acc h
+      have hnext : text = (c :: acc).reverse ++ rest := by simp [h]
+      have hlen : (c :: acc).length = acc.length + 1 := rfl
+      have htake : text.take acc.length = acc.reverse := by
+        rw [h, List.take_left' (by simp)]
+      have step := fun a' b' e' => ih a' b' e' (c :: acc) hnext
+      simp only [hlen] at step
+      clear ih hnext hlen h
+      have hc : c = '\\' ∨ c = '\'' ∨ c = '"' ∨ c = '#' ∨ (c ≠ '\\' ∧ c ≠ '\'' ∧ c ≠ '"' ∧ c ≠ '#') := by
+        by_cases h1 : c = '\\' <;> by_cases h2 : c = '\'' <;> by_cases h3 : c = '"' <;> by_cases h4 : c = '#' <;> simp [*]
+      rcases hc with rfl | rfl | rfl | rfl | ⟨h1, h2, h3, h4⟩ <;> cases a <;> cases b <;> cases e <;>
+        simp [Gen.Layout.stripInlineComment.go, stripGo, retOf_ret, retOf_fell, *]
+  have h := go s s false false false [] (by simp)
   simp only [List.length_nil] at h
   unfold Gen.Layout.stripInlineComment stripInlineComment
   show _ = (stripGo ⟨false, false, false⟩ [] s).getD s
   rw [← h]
-  cases Gen.Layout.stripInlineComment.go s ⟨false, false, false⟩ 0 s <;> simp [retOf]
+  cases Gen.Layout.stripInlineComment.go s ⟨false, false, false⟩ 0 s <;> simp [retOf_ret, retOf_fell]
 
 end Reduino.GenOb
